@@ -221,42 +221,53 @@ def survivesAlone (s : Sess) : Bool := streaming s && !isTcp s
 
 /-! ## tear-down (server_session.go `run`, server_conn.go `run`) -/
 
+/-- `removeClient` for every port of a list (the loop over the medias of a session) -/
+def removePorts (tbl : List (Nat × SessId)) (ports : List Nat) : List (Nat × SessId) :=
+  tbl.filter fun e => !ports.contains e.1
+
 /-- `serverSessionMedia.stop` for every media of the session -/
 def stopMedias (st : State) (s : Sess) : State :=
   if isUdp s then
-    { st with udpRtp := s.medias.foldl (fun t m => removeClient t m.rtp) st.udpRtp,
-              udpRtcp := s.medias.foldl (fun t m => removeClient t m.rtcp) st.udpRtcp }
+    { st with udpRtp := removePorts st.udpRtp (s.medias.map (·.rtp)),
+              udpRtcp := removePorts st.udpRtcp (s.medias.map (·.rtcp)) }
   else st
 
-/-- Tear-down of a session (`ServerSession.run` after `runInner` returned): every connection still
-in `ss.conns` is closed, the stream forgets the reader, the medias unregister their UDP ports, the
-write queue is destroyed, the server forgets the session. -/
+/-- Tear-down of a session (`ServerSession.run` after `runInner` returned), the state: every
+connection still in `ss.conns` is closed, the stream forgets the reader, the medias unregister
+their UDP ports, the write queue is destroyed, the server forgets the session. -/
+def closeSessSt (st : State) (s : Sess) : State :=
+  { cfg := st.cfg
+    conns := st.conns.filter (fun c => !s.conns.contains c.id)
+    sessions := st.sessions.filter (·.id != s.id)
+    nextSess := st.nextSess
+    httpRead := st.httpRead.filter (fun e => !s.conns.contains e.1)
+    udpRtp := if isUdp s then removePorts st.udpRtp (s.medias.map (·.rtp)) else st.udpRtp
+    udpRtcp := if isUdp s then removePorts st.udpRtcp (s.medias.map (·.rtcp)) else st.udpRtcp
+    readers := if playMode s then st.readers.filter (· != s.id) else st.readers
+    active := if playMode s then st.active.filter (· != s.id) else st.active
+    writers := st.writers.filter (· != s.id)
+    mcast := if playMode s && isMcast s then st.mcast - 1 else st.mcast }
+
 def closeSess (st : State) (s : Sess) : State × List Out :=
-  let st := { st with conns := st.conns.filter (fun c => !s.conns.contains c.id),
-                      httpRead := st.httpRead.filter (fun e => !s.conns.contains e.1) }
-  let st := if playMode s then
-      { st with active := st.active.filter (· != s.id), readers := st.readers.filter (· != s.id),
-                mcast := if isMcast s then st.mcast - 1 else st.mcast }
-    else st
-  let st := stopMedias st s
-  let st := { st with writers := st.writers.filter (· != s.id),
-                      sessions := st.sessions.filter (·.id != s.id) }
-  (st, s.conns.map Out.connClose ++ [Out.sessClose s.id])
+  (closeSessSt st s, s.conns.map Out.connClose ++ [Out.sessClose s.id])
+
+/-- the connection leaves the server's tables -/
+def dropConn (st : State) (c : ConnId) : State :=
+  { st with conns := st.conns.filter (·.id != c), httpRead := st.httpRead.filter (·.1 != c) }
+
+/-- the session record after `chRemoveConn` -/
+def leaveSess (s : Sess) (c : ConnId) : Sess := { s with conns := s.conns.filter (· != c) }
 
 /-- Tear-down of a connection (`ServerConn.run` after `runInner` returned): `session.removeConn`,
 then `Server.closeConn`.  The session reacts with the `chRemoveConn` rule. -/
 def closeConn (st : State) (c : Conn) : State × List Out :=
-  let st := { st with conns := st.conns.filter (·.id != c.id),
-                      httpRead := st.httpRead.filter (·.1 != c.id) }
   match c.session.bind (findSess st) with
-  | none => (st, [Out.connClose c.id])
+  | none => (dropConn st c.id, [Out.connClose c.id])
   | some s =>
-    let s' := { s with conns := s.conns.filter (· != c.id) }
-    let st := setSess st s'
-    if s'.conns.isEmpty && !survivesAlone s' then
-      let (st, o) := closeSess st s'
-      (st, Out.connClose c.id :: o)
-    else (st, [Out.connClose c.id])
+    if (leaveSess s c.id).conns.isEmpty && !survivesAlone s then
+      (dropConn (closeSessSt st (leaveSess s c.id)) c.id,
+        Out.connClose c.id :: (closeSess st (leaveSess s c.id)).2)
+    else (dropConn (setSess st (leaveSess s c.id)) c.id, [Out.connClose c.id])
 
 /-! ## the request logic -/
 
@@ -392,37 +403,49 @@ def startRecord (st : State) (s : Sess) : State :=
 def setPhase (st : State) (c : ConnId) (p : Phase) : State :=
   { st with conns := st.conns.map fun x => if x.id == c then { x with phase := p } else x }
 
-/-- the state change of a successful request (session `s` is the current record of the session) -/
+/-- PAUSE of a streaming session: the write queue goes (not for multicast), the stream marks the
+reader inactive, the medias unregister their UDP ports, the reader of a TCP connection goes back
+to `readFuncStandard` -/
+def pauseTo (st : State) (c : ConnId) (s : Sess) (target : SState) : State :=
+  let st := { st with writers := if isMcast s then st.writers else st.writers.filter (· != s.id),
+                      active := st.active.filter (· != s.id) }
+  let st := setSess (stopMedias st s) { s with state := target, tcpConn := if isTcp s then none else s.tcpConn }
+  if isTcp s then setPhase st c .standard else st
+
+/-- The state change of a successful request (session `s` is the current record of the session).
+Every case is guarded by the state the verdict was computed in (`decideInSession` has checked it:
+the guards never fail there); a SETUP keeps the transport of the session once it is set
+(`decideSetup` has checked that it is the same). -/
 def applyAction (st : State) (c : ConnId) (s : Sess) : Action → State
   | .nothing => st
-  | .announce path controls =>
-    setSess st { s with state := .preRecord, path := path, announced := controls }
-  | .setup p secure m path =>
-    let first := s.state == .initial
-    let st := if first then
-        { st with readers := s.id :: st.readers, mcast := if p == .mcast then st.mcast + 1 else st.mcast }
-      else st
-    setSess st { s with proto := some (p, secure), medias := s.medias ++ [m],
-                        state := if first then .prePlay else s.state,
-                        path := if first then path else s.path }
-  | .play =>
-    let st := if isMcast s then st else { st with writers := s.id :: st.writers, active := s.id :: st.active }
-    let st := startPlay st s
-    let st := setSess st { s with state := .play, tcpConn := if isTcp s then some c else s.tcpConn }
-    if isTcp s then setPhase st c .tcp else st
-  | .record =>
-    let st := { st with writers := s.id :: st.writers }
-    let st := startRecord st s
-    let st := setSess st { s with state := .record, tcpConn := if isTcp s then some c else s.tcpConn }
-    if isTcp s then setPhase st c .tcp else st
-  | .pause =>
-    let st := { st with writers := if isMcast s then st.writers else st.writers.filter (· != s.id),
-                        active := st.active.filter (· != s.id) }
-    let st := stopMedias st s
-    let st := setSess st { s with state := if s.state == .play then .prePlay else .preRecord,
-                                  tcpConn := if isTcp s then none else s.tcpConn }
-    if isTcp s then setPhase st c .standard else st
   | .teardown => st
+  | .announce path controls =>
+    if s.state == .initial then
+      setSess st { s with state := .preRecord, path := path, announced := controls }
+    else st
+  | .setup p secure m path =>
+    if !(s.proto.isNone || s.proto == some (p, secure)) then st
+    else if s.state == .initial then
+      -- first SETUP of a reader: `readerAdd`
+      setSess { st with readers := s.id :: st.readers, mcast := if p == .mcast then st.mcast + 1 else st.mcast }
+        { s with proto := some (p, secure), medias := s.medias ++ [m], state := .prePlay, path := path }
+    else setSess st { s with proto := some (p, secure), medias := s.medias ++ [m] }
+  | .play =>
+    if s.state == .prePlay then
+      let st := if isMcast s then st else { st with writers := s.id :: st.writers, active := s.id :: st.active }
+      let st := setSess (startPlay st s) { s with state := .play, tcpConn := if isTcp s then some c else s.tcpConn }
+      if isTcp s then setPhase st c .tcp else st
+    else st
+  | .record =>
+    if s.state == .preRecord then
+      let st := { st with writers := s.id :: st.writers }
+      let st := setSess (startRecord st s) { s with state := .record, tcpConn := if isTcp s then some c else s.tcpConn }
+      if isTcp s then setPhase st c .tcp else st
+    else st
+  | .pause =>
+    if s.state == .play then pauseTo st c s .prePlay
+    else if s.state == .record then pauseTo st c s .preRecord
+    else st
 
 /-- `handleRequestInSession`, first half: which session does the request go to?  `findOrCreateSession`
 when the connection has none; otherwise its own session (a different id is an error). -/
@@ -450,13 +473,16 @@ def resolve (st : State) (c : Conn) (r : Req) (create : Bool) : Except Nat (Stat
 def joinSess (s : Sess) (c : ConnId) : Sess :=
   if s.conns.contains c then s else { s with conns := s.conns ++ [c] }
 
-/-- after a successful TEARDOWN the connection is detached and the session ends
-(`ErrServerSessionTornDown`) -/
+/-- after a successful TEARDOWN the session ends (`ErrServerSessionTornDown`: every other
+connection of the session is closed) and the connection is detached -/
 def tornDown (st : State) (c : Conn) (sid : SessId) : State × List Out :=
-  let st := setConn st { c with session := none, phase := if c.phase == .tcp then .standard else c.phase }
   match findSess st sid with
-  | some s' => closeSess st { s' with conns := s'.conns.filter (· != c.id) }
-  | none => (st, [])
+  | some s' =>
+    (setConn (closeSessSt st (leaveSess s' c.id))
+       { c with session := none, phase := if c.phase == .tcp then .standard else c.phase },
+     (closeSess st (leaveSess s' c.id)).2)
+  | none =>
+    (setConn st { c with session := none, phase := if c.phase == .tcp then .standard else c.phase }, [])
 
 /-- `handleRequestInSession` + `ServerSession.runInner` (case `chHandleRequest`).  Returns the new
 state, status, error flag and the session open / close outputs. -/
@@ -506,11 +532,10 @@ def closeById (st : State) (c : ConnId) : State × List Out :=
 /-- one RTSP-level input on an open connection whose reader is past `handleTunneling` -/
 def rtspInput (st : State) (c : Conn) : Input → State × List Out
   | .req r =>
-    let (st, status, e, outs) := handleRequest st c r
-    if e then
-      let (st, o) := closeById st c.id
-      (st, Out.rtsp c.id status :: outs ++ o)
-    else (st, Out.rtsp c.id status :: outs)
+    if (handleRequest st c r).2.2.1 then
+      ((closeById (handleRequest st c r).1 c.id).1,
+        Out.rtsp c.id (handleRequest st c r).2.1 :: (handleRequest st c r).2.2.2 ++ (closeById (handleRequest st c r).1 c.id).2)
+    else ((handleRequest st c r).1, Out.rtsp c.id (handleRequest st c r).2.1 :: (handleRequest st c r).2.2.2)
   | .frame _ =>
     if c.phase == .tcp then (st, [Out.consumed c.id]) else closeConn st c
   | .skipped => (st, [Out.consumed c.id])
@@ -526,6 +551,35 @@ def deadlineArmed (st : State) (c : Conn) : Bool :=
      | none => true)
   | _ => true
 
+/-- close the connection after an HTTP answer -/
+def httpThenClose (st : State) (c : Conn) (status : Nat) : State × List Out :=
+  ((closeConn st c).1, Out.http c.id status :: (closeConn st c).2)
+
+/-- the first message of a connection (`handleTunneling`) -/
+def freshInput (st : State) (c : Conn) : Input → State × List Out
+  | .httpGet cookie =>
+    ({ setPhase st c.id (.httpWait cookie) with httpRead := st.httpRead ++ [(c.id, cookie)] }, [Out.http c.id 200])
+  | .httpPost cookie fresh =>
+    (match st.httpRead.find? (·.2 == cookie) with
+     | some e =>
+       -- both channels end as connections of their own, the merged connection starts
+       ({ st with conns := st.conns.filter (fun x => x.id != c.id && x.id != e.1)
+                             ++ [{ id := fresh, tunnel := .http, phase := .standard }],
+                  httpRead := st.httpRead.filter (fun x => x.1 != e.1 && x.1 != c.id) },
+        [Out.http c.id 200, Out.connOpen fresh, Out.connClose e.1, Out.connClose c.id])
+     | none => httpThenClose st c 200)
+  | .httpOther => httpThenClose st c 400
+  | .wsUpgrade ok =>
+    if ok then (setConn st { c with tunnel := .ws, phase := .standard }, [Out.ws c.id])
+    else httpThenClose st c 400
+  | .skipped => (setConn st { c with phase := .standard }, [Out.consumed c.id])
+  | i => rtspInput (setConn st { c with phase := .standard }) { c with phase := .standard } i
+
+/-- a message on a connection whose reader is in `readFuncStandard` / `readFuncTCP` -/
+def lateInput (st : State) (c : Conn) : Input → State × List Out
+  | .httpGet _ | .httpPost _ _ | .httpOther | .wsUpgrade _ => closeConn st c   -- not RTSP: parse error
+  | i => rtspInput st c i
+
 /-- one input on connection `c` -/
 def connInput (st : State) (c : Conn) (i : Input) : State × List Out :=
   if i == .idle && !deadlineArmed st c then (st, []) else
@@ -533,39 +587,8 @@ def connInput (st : State) (c : Conn) (i : Input) : State × List Out :=
   | .httpWait _ =>
     -- nothing is read while the GET channel waits for its POST; only the 5 s timer ends the wait
     if i == .idle then closeConn st c else (st, [])
-  | .fresh =>
-    (match i with
-     | .httpGet cookie =>
-       let st := setPhase st c.id (.httpWait cookie)
-       ({ st with httpRead := st.httpRead ++ [(c.id, cookie)] }, [Out.http c.id 200])
-     | .httpPost cookie fresh =>
-       (match st.httpRead.find? (·.2 == cookie) with
-        | some (g, _) =>
-          -- both channels end as connections of their own, the merged connection starts
-          let st := { st with conns := st.conns.filter (fun x => x.id != c.id && x.id != g)
-                                        ++ [{ id := fresh, tunnel := .http, phase := .standard }],
-                              httpRead := st.httpRead.filter (fun e => e.1 != g && e.1 != c.id) }
-          (st, [Out.http c.id 200, Out.connOpen fresh, Out.connClose g, Out.connClose c.id])
-        | none =>
-          let (st, o) := closeConn st c
-          (st, Out.http c.id 200 :: o))
-     | .httpOther =>
-       let (st, o) := closeConn st c
-       (st, Out.http c.id 400 :: o)
-     | .wsUpgrade ok =>
-       if ok then
-         (setConn st { c with tunnel := .ws, phase := .standard }, [Out.ws c.id])
-       else
-         let (st, o) := closeConn st c
-         (st, Out.http c.id 400 :: o)
-     | .skipped => (setConn st { c with phase := .standard }, [Out.consumed c.id])
-     | i =>
-       let c := { c with phase := .standard }
-       rtspInput (setConn st c) c i)
-  | _ =>
-    (match i with
-     | .httpGet _ | .httpPost _ _ | .httpOther | .wsUpgrade _ => closeConn st c   -- not RTSP: parse error
-     | i => rtspInput st c i)
+  | .fresh => freshInput st c i
+  | _ => lateInput st c i
 
 def step (st : State) : Event → State × List Out
   | .accept c =>
